@@ -670,6 +670,12 @@ def g_objective(s, P):
             kw['store_thetas'] = True
         if s.chance(0.2):
             kw['ll_scale'] = 10.0
+        if s.chance(0.3):
+            kwd = P.add('mk_value', {'scale': s.choice([1.0, 2.0])})
+            fk = {'$fn': 'model', 'id': 'two_epoch_kw'}
+            pp = [s.choice([0.5, 1.0, 2.0]), s.choice([0.02, 0.05])]
+            P.add('object_func', pp, data, fk, [8], func_kwargs=kwd, multinom=kw['multinom'])
+            P.add('object_func', pp, data, fk, [10], func_kwargs=kwd, func_args=[0.25], multinom=kw['multinom'])
         P.add('object_func', p, data, ex, pts, **kw)
     return P
 
@@ -877,7 +883,8 @@ def g_optimisers(s, P):
     data = P.add('S.scale', truth, s.choice([50.0, 200.0]))
     if s.chance(0.3):
         data = P.add('S.fold', data)
-    for _ in range(s.randint(1, 2)):
+    kwd = argl = None
+    for _ in range(s.randint(1, 3)):
         which = s.choice(['optimize_log', 'optimize_log', 'optimize', 'optimize_log_fmin', 'optimize_cons'])
         kw = dict(maxiter=s.choice([1, 2]), multinom=s.chance(0.6), verbose=s.choice([0, 1]))
         # the time parameter is always bounded above: an unbounded line search may ask for an integration over exp(large) time units
@@ -890,7 +897,18 @@ def g_optimisers(s, P):
             kw['full_output'] = True
         if s.chance(0.2) and which != 'optimize_log_fmin':
             kw['ll_scale'] = 10.0
-        P.add('OPT.scipy', which, {'$arr': p0} if s.chance(0.4) else p0, data, f, pts, **kw)
+        fm, fpts = f, pts
+        if s.chance(0.35):
+            # a model with extra positional / keyword arguments; the caller keeps the containers and reuses them on another grid
+            fm = {'$fn': 'model', 'id': 'two_epoch_kw'}
+            if kwd is None:
+                kwd = P.add('mk_value', {'scale': s.choice([1.0, 2.0])})
+                argl = P.add('mk_value', [s.choice([0.0, 0.25])])
+            kw['func_kwargs'] = kwd
+            if s.chance(0.6):
+                kw['func_args'] = argl
+            fpts = s.choice([[8], [10]])
+        P.add('OPT.scipy', which, {'$arr': p0} if s.chance(0.4) else p0, data, fm, fpts, **kw)
         if s.chance(0.4):
             P.add('object_func', [s.choice([0.5, 2.0]), 0.05], data, f, pts, multinom=s.chance(0.5), store_thetas=s.chance(0.5))
         elif s.chance(0.3):
